@@ -446,8 +446,11 @@ func (w *world) readDisk(start time.Time, each func(*filer_pb.LogEntry) error) (
 	sizeBuf := make([]byte, 4)
 	startTsNs := start.UnixNano()
 	for _, seg := range w.diskSnapshot() {
-		if seg.stop <= startTsNs {
-			continue // the real reader skips files by name; same effect
+		// The real reader skips whole minute files by name only (files named after the flush
+		// start time): segments of the start's own minute and later are read even when all
+		// their entries are older than the start; ReadEachLogEntry filters those out.
+		if time.Unix(0, seg.start).UTC().Truncate(time.Minute).Before(start.UTC().Truncate(time.Minute)) {
+			continue
 		}
 		var l int64
 		l, err = filer.ReadEachLogEntry(bytes.NewReader(seg.data), sizeBuf, startTsNs, each)
